@@ -54,7 +54,7 @@ def cases(tier, seed):
         add(dict(env="cvrptw", n=n, scale=False), ("gen", "boundary"))
         add(dict(env="cvrptw", n=n, scale=True), ("gen",), max(1, reps // 2))
         for p in ("cvrp", "vrpb", "vrpl", "ovrp", "vrptw", "ovrpbltw", "vrpbltw", "all"):
-            add(dict(env="mtvrp", n=n, preset=p), ("gen", "boundary") if p in ("cvrp", "vrpb", "all") else ("gen",), max(1, reps // 2))
+            add(dict(env="mtvrp", n=n, preset=p), ("gen", "boundary") if p in ("cvrp", "vrpb", "all", "vrptw", "vrpbltw", "ovrpbltw") else ("gen",), max(1, reps // 2))
     for n in ((4, 6) if q else (4, 6)):
         add(dict(env="pdp", n=n, start_depot=False))
         add(dict(env="pdp", n=n, start_depot=True))
